@@ -33,16 +33,11 @@ EXPECTED = [
 
 
 def build(S, tier, seed):
-    S.install(loops={dates.PARSE_LOOP: dates.parse_loop_annot(),
-                     purge.PARSE_PATH_LOOP: purge.parse_path_loop_annot(),
-                     trashdirs.VOLUME_OF_LOOP: trashdirs.volume_of_loop_annot()})
-    S.verify(purge.ParsePath())
-    S.verify(dates.ParseDeletionDate())
-    S.verify(dates.MaybeParseDeletionDate())
-    deps = [dates.ParseDeletionDate(), dates.ClockNow(), dates.OlderThan()]
-    S.install(deps)
-    S.verify(purge.OkToDelete(), active=[c.key for c in deps])
+    S.install(loops={trashdirs.VOLUME_OF_LOOP: trashdirs.volume_of_loop_annot()})
+    purge.leaf_vcs(S)
     S.verify(trashdirs.VolumeOf())
+    S.verify(trashdirs.HomeTrashDirPath())
+    S.verify(trashdirs.ValidToBeRead())
     readers.list_reader_vc(S)
     readers.restore_reader_vc(S)
     purge.rm_vc(S)
